@@ -9,6 +9,7 @@ subscriptions whose publisher lies below `lo` (binding the heads of the trunk to
 -/
 import ForML.Lemmas.C03CopySpec
 import ForML.Lemmas.C03Indep
+import ForML.Lemmas.C03Ops
 
 namespace ForML.Compose
 
@@ -35,8 +36,6 @@ theorem Region.copy {g : Graph} {W Wx : World} {seg : Segment} {lo : Nat} (hr : 
 theorem Region.pushEdge {g : Graph} {W Wx : World} {seg : Segment} {lo : Nat} (hr : Region g W Wx seg lo) (e : Edge)
     (hfree : g.inputOf e.sub e.port = none) (hp : e.pub.node < lo)
     (hs : e.sub = seg.head ∨ ¬ Reach g seg.head e.sub) : Region (g.pushEdge e) W Wx seg lo := by
-  have hin : ∀ u k, g.inputOf u k = some (match g.inputOf u k with | some q => q | none => default) ∨ g.inputOf u k = none := by
-    intro u k; cases g.inputOf u k <;> simp
   have hin' : ∀ u k q, (g.pushEdge e).inputOf u k = some q → g.inputOf u k = some q ∨ (e.sub = u ∧ e.port = k ∧ e.pub = q) := by
     intro u k q hq
     rw [inputOf_pushEdge] at hq
@@ -152,7 +151,7 @@ theorem altGood_of_good {g0 g : Graph} {W Wx : World} (hi : Inv g W) (hix : Inv 
               rw [hts] at htm
               rcases List.mem_append.mp htm with h | h
               · have := hb0 t h
-                have := hgid gid a szin szout rfl
+                have := hgid gid a szin szout hk
                 omega
               · exact h
             have hpt : trainedUnder W t = trainedUnder Wx t := by
@@ -167,5 +166,39 @@ theorem altGood_of_good {g0 g : Graph} {W Wx : World} (hi : Inv g W) (hix : Inv 
           rw [hst, hstx]
       intro i
       rw [hσx i, hstate]
+
+/-- the apply region of a freshly expanded trunk, from two runs of the same construction on different apply inputs -/
+theorem Region.ofSpec {g g' : Graph} {W W' Wx' : World} {t : Trunk} {xa x' xt xl : Val} {r : Nat} {s sx : Sem}
+    (hi : Inv g W) (hw : Wired g) (ok : TrunkOk True g g' W W' t xa xt xl r s) (okx : TrunkOk True g g' W Wx' t x' xt xl r sx)
+    (hst : s.states = sx.states) : Region g' W' Wx' t.apply g.next := by
+  have hlo : ∀ n, Reach g' t.apply.head n → g.next ≤ n := fun n h => Reach.new ok.frame hw ok.ha.ge h
+  obtain ⟨d1, d2, _⟩ := ok.distinct
+  refine ⟨ok.ha.live, ok.ha.isOpen.1, hlo, ok.reg trivial, ok.regTail trivial, ?_, ?_⟩
+  · intro n hre hne
+    obtain ⟨ts, hts, _, hm⟩ := ok.trains
+    obtain ⟨tsx, htsx, _, hmx⟩ := okx.trains
+    have ets : ts = tsx := List.append_cancel_left (hts.symm.trans htsx)
+    refine altGood_of_good (g0 := g) ok.inv okx.inv ((ok.reg trivial n hre hne).1) ((okx.reg trivial n hre hne).1) ?_ ?_ ts hts
+      hi.bounded.trainsLt ?_
+    · intro hk
+      cases hq : g'.inputOf n 0 with
+      | some q => exact ⟨q, rfl⟩
+      | none =>
+        exfalso
+        rcases ok.opens n (hlo n hre) ((ok.reg trivial n hre hne).1) ⟨hk, hq⟩ with h | h | h
+        · exact hne h
+        · exact not_reach_of_no_input ok.ht.free (fun e => d1 e.symm) (h ▸ hre)
+        · exact not_reach_of_no_input ok.hl.free (fun e => d2 e.symm) (h ▸ hre)
+    · intro gid a i o hk
+      exact ok.fresh n (hlo n hre) ((ok.reg trivial n hre hne).1) gid a i o hk
+    · rw [hm, hst, ← hmx, ets]
+  · intro k q hq
+    rw [ok.ha.free k] at hq; cases hq
+
+/-- binding a live hole to a live publisher of smaller rank carrying the hole's value -/
+theorem bindHead {g : Graph} {W : World} (hi : Inv g W) (hw : Wired g) (h : Nat) (q : PubRef) (hl : W.live h)
+    (ho : g.isOpen h) (hq : RefOk W q (W.h h)) (hσ : ∀ i, W.σ ⟨h, i⟩ = W.σ q) :
+    Run (subscribe h 0 q) g () (g.pushEdge ⟨h, 0, q⟩) ∧ Inv (g.pushEdge ⟨h, 0, q⟩) W ∧ Wired (g.pushEdge ⟨h, 0, q⟩) :=
+  ⟨run_subscribe h 0 q g ho.2, hi.bindFuture h q hl ho hq hσ, hw.pushEdge _ (hi.liveLt _ hq.1).1 ho.2⟩
 
 end ForML.Compose
